@@ -7,7 +7,11 @@
 //!     local literals win, an inverted invocation = reversed body with every step
 //!     inverted). `ctx.op(invocation)` and `ctx.op(literal)` must both fail or both succeed
 //!     and, when they succeed, behave bit-identically in both directions; an inverted
-//!     invocation must equal the literal applied in the opposite direction.
+//!     invocation must equal the literal applied in the opposite direction. Directional steps
+//!     (`omit_fwd`, `omit_inv`, `<`, `>`) of a pipeline body belong to the body: when an inverted
+//!     invocation runs the body backwards, the literal has omit_fwd and omit_inv exchanged.
+//!     Parameter names are drawn from a pool spanning the whole lexical order relative to the
+//!     keys the library keeps in the same maps (`_name`, `ellps`, `inv`, `omit_fwd`, `omit_inv`).
 //! (b) Arbitrary resource graphs (cycles of length 1..8, branching pipeline bodies, missing
 //!     names) and chains of depth 0..60: `ctx.op` returns Ok or Err, never panics, never
 //!     overflows the stack, never hangs (watchdog = violation); a reachable cycle or a
@@ -47,11 +51,46 @@ enum InvPos {
     Suffix, // name k=v inv
 }
 
+/// Directional omission of a pipeline step (Rumination 009: `omit_fwd` / `omit_inv`, with the
+/// one-way separators `<` / `>` as syntactic sugar) and how it is spelled
+#[derive(Clone, Copy, Debug, Default, Serialize, Deserialize, PartialEq, Eq, Hash)]
+struct Omit {
+    fwd: bool, // the step is left out when its pipeline runs forward
+    inv: bool, // the step is left out when its pipeline runs in the inverse direction
+    /// 0: one-way separator in front of the step (`a > b` = omit_inv, `a < b` = omit_fwd; falls back
+    /// to 1 on the first step of a pipeline and when both flags are set), 1: word(s) before the
+    /// operator name, 2: right after the name, 3: after all arguments, 4: `omit_fwd=true` at the end
+    form: u8,
+}
+
+impl Omit {
+    const NONE: Omit = Omit { fwd: false, inv: false, form: 0 };
+    fn any(self) -> bool {
+        self.fwd || self.inv
+    }
+    fn by_separator(self, first: bool) -> bool {
+        self.form == 0 && !first && (self.fwd != self.inv)
+    }
+    fn words(self) -> Vec<String> {
+        let mut w = vec![];
+        let v = if self.form == 4 { "=true" } else { "" };
+        if self.fwd {
+            w.push(format!("omit_fwd{v}"));
+        }
+        if self.inv {
+            w.push(format!("omit_inv{v}"));
+        }
+        w
+    }
+}
+
 #[derive(Clone, Debug, Serialize, Deserialize, PartialEq, Eq, Hash)]
 struct Step {
     op: String, // built-in operator name, or macro name (contains ':')
     args: Vec<Arg>,
     inv: InvPos,
+    #[serde(default)]
+    omit: Omit,
 }
 
 #[derive(Clone, Debug, Serialize, Deserialize, PartialEq, Eq, Hash)]
@@ -89,12 +128,25 @@ impl Step {
     fn is_macro(&self) -> bool {
         self.op.contains(':')
     }
+    /// the step without its directional modifiers
     fn text_with(&self, inv: InvPos) -> String {
+        self.text_full(inv, false)
+    }
+    /// `omit_words`: spell the directional modifiers as words (otherwise they are left to the
+    /// one-way separator in front of the step, see `steps_text`)
+    fn text_full(&self, inv: InvPos, omit_words: bool) -> String {
+        let words = if omit_words { self.omit.words() } else { vec![] };
         let mut parts: Vec<String> = vec![];
+        if matches!(self.omit.form, 0 | 1) {
+            parts.extend(words.iter().cloned());
+        }
         if inv == InvPos::Prefix {
             parts.push("inv".into());
         }
         parts.push(self.op.clone());
+        if self.omit.form == 2 {
+            parts.extend(words.iter().cloned());
+        }
         if inv == InvPos::Infix {
             parts.push("inv".into());
         }
@@ -104,15 +156,26 @@ impl Step {
         if inv == InvPos::Suffix {
             parts.push("inv".into());
         }
+        if self.omit.form >= 3 {
+            parts.extend(words.iter().cloned());
+        }
         parts.join(" ")
     }
     fn text(&self) -> String {
-        self.text_with(self.inv)
+        self.text_full(self.inv, true)
     }
 }
 
 fn steps_text(steps: &[Step]) -> String {
-    steps.iter().map(|s| s.text()).collect::<Vec<_>>().join(" | ")
+    let mut out = String::new();
+    for (i, s) in steps.iter().enumerate() {
+        let sep = s.omit.by_separator(i == 0);
+        if i > 0 {
+            out.push_str(if !sep { " | " } else if s.omit.inv { " > " } else { " < " });
+        }
+        out.push_str(&s.text_full(s.inv, !sep));
+    }
+    out
 }
 
 // ---- built-in operators used as leaves: their complete gamuts -------------------------
@@ -282,6 +345,9 @@ struct LeafLit {
     op: String,
     params: BTreeMap<String, (String, bool)>,
     inv: bool,
+    /// left out when the *literal* runs forward / inverse
+    omit_fwd: bool,
+    omit_inv: bool,
 }
 
 impl LeafLit {
@@ -297,6 +363,12 @@ impl LeafLit {
         }
         if self.inv {
             s.push_str(" inv");
+        }
+        if self.omit_fwd {
+            s.push_str(" omit_fwd");
+        }
+        if self.omit_inv {
+            s.push_str(" omit_inv");
         }
         s
     }
@@ -317,6 +389,11 @@ struct Expansion {
     forms: BTreeMap<String, u64>,
     hops_max: u8,
     safe_hops: u64,
+    /// one-way steps: (directional steps met, those met inside an invocation inverted an odd number
+    /// of times, leaves that inherit a directional omission from an enclosing invocation)
+    one_way: (u64, u64, u64),
+    /// largest number of inverted invocations enclosing a directional step
+    one_way_inversions: u8,
 }
 
 impl Expansion {
@@ -333,6 +410,20 @@ impl Expansion {
         }
         base.to_string()
     }
+}
+
+/// What a definition inherits from the invocations enclosing it
+#[derive(Clone, Copy, Debug, Default)]
+struct Frame {
+    /// run backwards: an odd number of the enclosing invocations are inverted
+    flip: bool,
+    /// directional omissions of the enclosing invocation steps, in terms of the literal's direction
+    omit_fwd: bool,
+    omit_inv: bool,
+    /// some enclosing invocation step carries a directional omission (evidence only)
+    inherited: bool,
+    /// number of inverted enclosing invocations (evidence only)
+    inversions: u8,
 }
 
 struct Expander {
@@ -352,7 +443,7 @@ impl Expander {
     fn new(lib: &[Macro]) -> Expander {
         let mut map: BTreeMap<String, (i16, Vec<Step>)> = BTreeMap::new();
         for (name, key, v) in BUILTIN_MACROS {
-            let body = vec![Step { op: "adapt".into(), args: vec![Arg { key: key.into(), val: Val::Lit(v.into()) }], inv: InvPos::No }];
+            let body = vec![Step { omit: Omit::NONE, op: "adapt".into(), args: vec![Arg { key: key.into(), val: Val::Lit(v.into()) }], inv: InvPos::No }];
             map.insert(name.to_string(), (-2, body));
         }
         for (i, m) in lib.iter().enumerate() {
@@ -376,29 +467,52 @@ impl Expander {
     fn run_top(mut self, top: &[Step]) -> Expansion {
         let env = Self::initial_env();
         let level = if top.len() == 1 && top[0].is_macro() { 2 } else { 0 };
-        self.def(top, -1, &env, false, level, 0);
+        self.def(top, -1, &env, Frame::default(), level, 0);
         self.out
     }
 
-    fn def(&mut self, steps: &[Step], site: i16, env: &Env, flip: bool, level: usize, depth: usize) {
+    /// One definition text (the invocation, or the body of a macro). `fr.flip`: it is run backwards
+    /// (an odd number of the enclosing invocations are inverted): the literal lists its steps in
+    /// reverse order, each inverted. A directional omission (`omit_fwd`, `omit_inv`, `<`, `>`) is
+    /// a property of a step *of a pipeline*, relative to the direction that pipeline is run in:
+    /// when the pipeline is run backwards by an inverted invocation, a step it omits in its own
+    /// inverse direction is one the literal omits in its forward direction and vice versa; a step
+    /// that is a macro invocation hands its omissions on to everything it expands to.
+    fn def(&mut self, steps: &[Step], site: i16, env: &Env, fr: Frame, level: usize, depth: usize) {
         self.out.max_level = self.out.max_level.max(level);
         if steps.len() == 1 {
-            self.step(&steps[0], site, 0, env, flip, level, depth);
+            if steps[0].omit.any() {
+                // only pipelines omit steps; what a directional modifier on a lone operator means
+                // (nothing? something for the pipeline that invokes the macro?) is not specified
+                self.out.unspecified.push(format!("'{}': directional modifier on a definition that is not a pipeline", steps[0].text()));
+            }
+            self.step(&steps[0], site, 0, env, fr, level, depth);
             return;
         }
-        let order: Vec<usize> = if flip { (0..steps.len()).rev().collect() } else { (0..steps.len()).collect() };
+        let order: Vec<usize> = if fr.flip { (0..steps.len()).rev().collect() } else { (0..steps.len()).collect() };
         for i in order {
             let l = level + 1 + steps[i].is_macro() as usize;
-            self.step(&steps[i], site, i, env, flip, l, depth);
+            let o = steps[i].omit;
+            let mut f = fr;
+            if o.any() {
+                let (of, oi) = if fr.flip { (o.inv, o.fwd) } else { (o.fwd, o.inv) };
+                f.omit_fwd |= of;
+                f.omit_inv |= oi;
+                self.out.one_way.0 += 1;
+                self.out.one_way.1 += fr.flip as u64;
+                self.out.one_way_inversions = self.out.one_way_inversions.max(fr.inversions);
+            }
+            self.step(&steps[i], site, i, env, f, l, depth);
         }
     }
 
-    fn step(&mut self, st: &Step, site: i16, idx: usize, env: &Env, flip: bool, level: usize, depth: usize) {
+    fn step(&mut self, st: &Step, site: i16, idx: usize, env: &Env, fr: Frame, level: usize, depth: usize) {
         if self.out.overflow {
             return;
         }
         self.out.max_level = self.out.max_level.max(level);
         self.out.max_depth = self.out.max_depth.max(depth);
+        let flip = fr.flip;
         let eff = flip ^ (st.inv != InvPos::No);
         if st.is_macro() {
             if st.inv == InvPos::Prefix {
@@ -413,9 +527,10 @@ impl Expander {
                 return;
             }
             let env2 = self.bind(st, site, idx, env, depth);
-            self.def(&body, msite, &env2, eff, level + 2, depth + 1);
+            let inner = Frame { flip: eff, inherited: fr.omit_fwd || fr.omit_inv, inversions: fr.inversions.saturating_add((st.inv != InvPos::No) as u8), ..fr };
+            self.def(&body, msite, &env2, inner, level + 2, depth + 1);
         } else {
-            self.leaf(st, env, eff, depth);
+            self.leaf(st, env, eff, depth, fr);
         }
     }
 
@@ -548,7 +663,7 @@ impl Expander {
         *self.out.forms.entry(label).or_insert(0) += 1;
     }
 
-    fn leaf(&mut self, st: &Step, env: &Env, inv: bool, depth: usize) {
+    fn leaf(&mut self, st: &Step, env: &Env, inv: bool, depth: usize, fr: Frame) {
         if self.budget == 0 {
             self.out.overflow = true;
             return;
@@ -685,7 +800,10 @@ impl Expander {
                 }
             }
         }
-        self.out.leaves.push(LeafLit { op: st.op.clone(), params, inv });
+        if fr.inherited && (fr.omit_fwd || fr.omit_inv) {
+            self.out.one_way.2 += 1;
+        }
+        self.out.leaves.push(LeafLit { op: st.op.clone(), params, inv, omit_fwd: fr.omit_fwd, omit_inv: fr.omit_inv });
     }
 }
 
@@ -697,7 +815,7 @@ fn expand(lib: &[Macro], top: &[Step]) -> Expansion {
 /// library's own doc-tests of the same examples in src/op/mod.rs).
 fn selftest() {
     let arg = |k: &str, v: Val| Arg { key: k.into(), val: v };
-    let st = |op: &str, args: Vec<Arg>, inv: InvPos| Step { op: op.into(), args, inv };
+    let st = |op: &str, args: Vec<Arg>, inv: InvPos| Step { omit: Omit::NONE, op: op.into(), args, inv };
     let lit = |s: &str| Val::Lit(s.into());
     // cart:utm = "inv cart | utm zone=(32)"
     let lib = vec![Macro {
@@ -746,6 +864,41 @@ fn selftest() {
         assert_eq!(x.unsafe_feats.is_empty(), outer < inner);
         assert_eq!(x.max_level, 6);
     }
+    // the wide name pools: disjoint, no operator key, no reserved key, no trailing subscript digit
+    let mut all = BTreeSet::new();
+    for ty in 0..3u8 {
+        for n in wide_names(ty) {
+            assert!(!is_operator_key(n) && all.insert(n.clone()), "{n}");
+            assert!(!n.ends_with(|c: char| ('\u{2080}'..='\u{2089}').contains(&c)) && !n.contains(|c: char| c.is_whitespace() || "=$()|<>#:,".contains(c)), "{n}");
+        }
+    }
+    for r in RESERVED {
+        assert!(wide_names(0).iter().any(|n| n.as_str() < r) && wide_names(0).iter().any(|n| n.as_str() > r));
+    }
+    // one-way steps (Rumination 000/009: '>' = '| omit_inv', '<' = '| omit_fwd'; a step so marked is
+    // left out when *the pipeline* is executed in that direction)
+    let ow = |fwd: bool, inv: bool, form: u8, mut s: Step| {
+        s.omit = Omit { fwd, inv, form };
+        s
+    };
+    let body = vec![st("addone", vec![], InvPos::No), ow(false, true, 0, st("helmert", vec![arg("x", lit("10"))], InvPos::No))];
+    assert_eq!(steps_text(&body), "addone > helmert x=10");
+    assert_eq!(steps_text(&[body[0].clone(), ow(true, false, 0, body[1].clone())]), "addone < helmert x=10");
+    assert_eq!(steps_text(&[ow(true, false, 0, body[0].clone()), ow(true, true, 0, body[1].clone())]), "omit_fwd addone | omit_fwd omit_inv helmert x=10");
+    assert_eq!(steps_text(&[body[0].clone(), ow(false, true, 4, st("o:w", vec![arg("x", lit("1"))], InvPos::Prefix))]), "addone | inv o:w x=1 omit_inv=true");
+    let lib = vec![Macro { name: "o:w".into(), body: body.clone() }, Macro { name: "o:back".into(), body: vec![st("o:w", vec![], InvPos::Suffix)] }];
+    assert_eq!(expand(&lib, &[st("o:w", vec![], InvPos::No)]).literal(), "addone ellps=GRS80 | helmert ellps=GRS80 x=10 omit_inv");
+    // the inverse of that: the helmert step is left out when the *body* runs in its inverse direction,
+    // which is the forward direction of the inverted invocation
+    let inverted = "helmert ellps=GRS80 x=10 inv omit_fwd | addone ellps=GRS80 inv";
+    assert_eq!(expand(&lib, &[st("o:w", vec![], InvPos::Infix)]).literal(), inverted);
+    assert_eq!(expand(&lib, &[st("o:back", vec![], InvPos::No)]).literal(), inverted);
+    assert_eq!(expand(&lib, &[st("o:back", vec![], InvPos::Prefix)]).literal(), "addone ellps=GRS80 | helmert ellps=GRS80 x=10 omit_inv");
+    // an invocation that is itself a one-way step hands the omission on to all it expands to
+    let x = expand(&lib, &[st("noop", vec![], InvPos::No), ow(true, false, 1, st("o:w", vec![], InvPos::Suffix))]);
+    assert_eq!(x.literal(), "noop ellps=GRS80 | helmert ellps=GRS80 x=10 inv omit_fwd | addone ellps=GRS80 inv omit_fwd");
+    assert!(x.unspecified.is_empty() && x.one_way == (2, 1, 2), "{:?}", x.one_way);
+    assert!(!expand(&lib, &[ow(true, false, 1, st("o:w", vec![], InvPos::No))]).unspecified.is_empty());
 }
 
 // ---- running the library ------------------------------------------------------------------
@@ -934,7 +1087,20 @@ fn check_with<C: Context>(case: &Case, rec: &mut Rec) -> CaseResult {
     if invs > 0 {
         rec.class("has-inverted-macro-invocation");
     }
-    if x.nontrivial {
+    // where the names of the invocation arguments sort relative to the keys the library keeps itself
+    for a in case.top.iter().chain(case.lib.iter().flat_map(|m| m.body.iter())).filter(|s| s.is_macro()).flat_map(|s| s.args.iter()) {
+        rec.count(&name_class(&a.key), 1);
+    }
+    if x.one_way.0 > 0 {
+        rec.class("has-one-way-steps");
+        rec.class(&format!("one-way-steps-under-{}-inverted-invocations", x.one_way_inversions.min(3)));
+        rec.count("one-way-steps", x.one_way.0);
+        rec.count("one-way-steps-run-backwards-by-an-inverted-invocation", x.one_way.1);
+        rec.count("leaves-omitted-through-an-enclosing-invocation", x.one_way.2);
+    }
+    // (no other section has one-way steps) non-trivial there: a one-way step inside a body that an
+    // odd number of inverted invocations run backwards
+    if x.nontrivial || x.one_way.1 > 0 {
         rec.nontrivial(&(lib_text(&case.lib), &invocation));
     }
     Ok(())
@@ -1133,12 +1299,12 @@ fn interpret_step(r: &RawStep, target: Option<String>, names: &Names, mode: Mode
             })
             .collect();
         tidy_args(&mut args);
-        return Step { op: t, args, inv: inv_of(r.inv, true, mode) };
+        return Step { omit: Omit::NONE, op: t, args, inv: inv_of(r.inv, true, mode) };
     }
     if r.kind == 19 {
         // one of the macros every context pre-registers
         let b = BUILTIN_MACROS[pick(r.leaf, BUILTIN_MACROS.len())];
-        return Step { op: b.0.into(), args: vec![], inv: inv_of(r.inv, true, mode) };
+        return Step { omit: Omit::NONE, op: b.0.into(), args: vec![], inv: inv_of(r.inv, true, mode) };
     }
     let spec = &LEAVES[pick(r.leaf, 5)]; // helmert, utm, tmerc, cart, addone
     let mut args: Vec<Arg> = vec![];
@@ -1163,7 +1329,7 @@ fn interpret_step(r: &RawStep, target: Option<String>, names: &Names, mode: Mode
     tidy_args(&mut args);
     // a bound `inv` replaces the positional modifier
     let inv = if args.iter().any(|a| a.key == "inv") { InvPos::No } else { inv_of(r.inv, false, mode) };
-    Step { op: spec.name.into(), args, inv }
+    Step { omit: Omit::NONE, op: spec.name.into(), args, inv }
 }
 
 fn arg_mut<'a>(lib: &'a mut [Macro], top: &'a mut [Step], id: ArgId) -> Option<&'a mut Arg> {
@@ -1238,7 +1404,7 @@ fn build_case(raw: &RawCase, mode: Mode) -> Case {
                         seen_chain = true;
                         continue;
                     }
-                    *s = Step { op: "addone".into(), args: vec![], inv: InvPos::No };
+                    *s = Step { omit: Omit::NONE, op: "addone".into(), args: vec![], inv: InvPos::No };
                     done = true;
                     break 'outer;
                 }
@@ -1265,7 +1431,7 @@ fn build_case(raw: &RawCase, mode: Mode) -> Case {
         })
         .collect();
     tidy_args(&mut top_args);
-    let main = Step { op: name_of(0), args: top_args, inv: inv_of(raw.top_inv, true, mode) };
+    let main = Step { omit: Omit::NONE, op: name_of(0), args: top_args, inv: inv_of(raw.top_inv, true, mode) };
     let simple = |r: &RawStep| -> Step {
         let mut s = interpret_step(&RawStep { kind: 10, ..r.clone() }, None, &Names([vec![], vec![], vec![]]), mode);
         // outside any macro there is nothing to bind to
@@ -1342,6 +1508,7 @@ fn near_miss_case(i: usize) -> Case {
     let (name, other) = (NEAR_MISS[n], NEAR_MISS[(n + 3) % 10]);
     let lit = |k: &str, v: &str| Arg { key: k.into(), val: Val::Lit(v.into()) };
     let leaf = Step {
+        omit: Omit::NONE,
         op: "helmert".into(),
         args: vec![Arg { key: "x".into(), val: Val::Ref(name.into()) }, Arg { key: "y".into(), val: Val::RefDef(other.into(), "0".into()) }],
         inv: InvPos::No,
@@ -1354,10 +1521,10 @@ fn near_miss_case(i: usize) -> Case {
     }
     let inner = Macro { name: "i:m".into(), body: vec![leaf] };
     if nest == 0 {
-        return Case { ctx: ctx as u8, lib: vec![inner], top: vec![Step { op: "i:m".into(), args: top_args, inv: pos(top_inv) }], twin: InvPos::Suffix, excluded_known: 0 };
+        return Case { ctx: ctx as u8, lib: vec![inner], top: vec![Step { omit: Omit::NONE, op: "i:m".into(), args: top_args, inv: pos(top_inv) }], twin: InvPos::Suffix, excluded_known: 0 };
     }
-    let outer = Macro { name: "o:m".into(), body: vec![Step { op: "i:m".into(), args: vec![lit(other, "7")], inv: pos(nest - 1) }] };
-    Case { ctx: ctx as u8, lib: vec![outer, inner], top: vec![Step { op: "o:m".into(), args: top_args, inv: pos(top_inv) }], twin: InvPos::Prefix, excluded_known: 0 }
+    let outer = Macro { name: "o:m".into(), body: vec![Step { omit: Omit::NONE, op: "i:m".into(), args: vec![lit(other, "7")], inv: pos(nest - 1) }] };
+    Case { ctx: ctx as u8, lib: vec![outer, inner], top: vec![Step { omit: Omit::NONE, op: "o:m".into(), args: top_args, inv: pos(top_inv) }], twin: InvPos::Prefix, excluded_known: 0 }
 }
 
 /// The same for flag-typed operator keys: utm south, addone inv, helmert exact, geodesic reversible,
@@ -1392,9 +1559,9 @@ fn flag_forms_case(i: usize) -> Case {
         .filter(|b| subset & (1 << b) != 0)
         .map(|b| if b % 2 == 0 { Arg { key: names[b].into(), val: Val::Flag } } else { lit(names[b], "true") })
         .collect();
-    let inner = Macro { name: "i:m".into(), body: vec![Step { op: op.into(), args, inv: InvPos::No }] };
+    let inner = Macro { name: "i:m".into(), body: vec![Step { omit: Omit::NONE, op: op.into(), args, inv: InvPos::No }] };
     if !nested {
-        return Case { ctx: (i % 3) as u8, lib: vec![inner], top: vec![Step { op: "i:m".into(), args: top_args, inv: InvPos::No }], twin: InvPos::Suffix, excluded_known: 0 };
+        return Case { ctx: (i % 3) as u8, lib: vec![inner], top: vec![Step { omit: Omit::NONE, op: "i:m".into(), args: top_args, inv: InvPos::No }], twin: InvPos::Suffix, excluded_known: 0 };
     }
     let call_args: Vec<Arg> = match fo {
         0 => vec![],
@@ -1403,8 +1570,8 @@ fn flag_forms_case(i: usize) -> Case {
         3 => vec![Arg { key: names[p].into(), val: Val::RefDef(names[q].into(), "true".into()) }],
         _ => vec![Arg { key: names[p].into(), val: Val::Def("true".into()) }],
     };
-    let outer = Macro { name: "o:m".into(), body: vec![Step { op: "i:m".into(), args: call_args, inv: InvPos::No }] };
-    Case { ctx: (i % 3) as u8, lib: vec![outer, inner], top: vec![Step { op: "o:m".into(), args: top_args, inv: InvPos::No }], twin: InvPos::Infix, excluded_known: 0 }
+    let outer = Macro { name: "o:m".into(), body: vec![Step { omit: Omit::NONE, op: "i:m".into(), args: call_args, inv: InvPos::No }] };
+    Case { ctx: (i % 3) as u8, lib: vec![outer, inner], top: vec![Step { omit: Omit::NONE, op: "o:m".into(), args: top_args, inv: InvPos::No }], twin: InvPos::Infix, excluded_known: 0 }
 }
 
 fn forms_case(i: usize) -> Case {
@@ -1434,14 +1601,14 @@ fn forms_case(i: usize) -> Case {
         (j % 3, (j / 3) % 3, 0, (j / 9) % 5, 0, j / 45, false)
     };
     let top_args: Vec<Arg> = (0..3).filter(|b| subset & (1 << b) != 0).map(|b| Arg { key: names[b].into(), val: Val::Lit(top_vals[b].into()) }).collect();
-    let leaf = Step { op: "helmert".into(), args: form(fi, names[k], names[p], "31", "32").into_iter().collect(), inv: InvPos::No };
+    let leaf = Step { omit: Omit::NONE, op: "helmert".into(), args: form(fi, names[k], names[p], "31", "32").into_iter().collect(), inv: InvPos::No };
     let inner = Macro { name: "i:m".into(), body: vec![leaf] };
     if nested {
-        let call = Step { op: "i:m".into(), args: form(fo, names[p], names[q], "21", "22").into_iter().collect(), inv: InvPos::No };
+        let call = Step { omit: Omit::NONE, op: "i:m".into(), args: form(fo, names[p], names[q], "21", "22").into_iter().collect(), inv: InvPos::No };
         let outer = Macro { name: "o:m".into(), body: vec![call] };
-        Case { ctx: (i % 3) as u8, lib: vec![outer, inner], top: vec![Step { op: "o:m".into(), args: top_args, inv: InvPos::No }], twin: InvPos::Suffix, excluded_known: 0 }
+        Case { ctx: (i % 3) as u8, lib: vec![outer, inner], top: vec![Step { omit: Omit::NONE, op: "o:m".into(), args: top_args, inv: InvPos::No }], twin: InvPos::Suffix, excluded_known: 0 }
     } else {
-        Case { ctx: (i % 3) as u8, lib: vec![inner], top: vec![Step { op: "i:m".into(), args: top_args, inv: InvPos::No }], twin: InvPos::Infix, excluded_known: 0 }
+        Case { ctx: (i % 3) as u8, lib: vec![inner], top: vec![Step { omit: Omit::NONE, op: "i:m".into(), args: top_args, inv: InvPos::No }], twin: InvPos::Infix, excluded_known: 0 }
     }
 }
 
@@ -1457,16 +1624,16 @@ fn chain_case(i: usize) -> Case {
     let mut lib = vec![];
     for d in 0..=depth {
         let body = if d == depth {
-            let leaf = Step { op: "helmert".into(), args: vec![Arg { key: "x".into(), val: Val::RefDef("a".into(), "1".into()) }, Arg { key: "y".into(), val: Val::Ref("c".into()) }], inv: InvPos::No };
+            let leaf = Step { omit: Omit::NONE, op: "helmert".into(), args: vec![Arg { key: "x".into(), val: Val::RefDef("a".into(), "1".into()) }, Arg { key: "y".into(), val: Val::Ref("c".into()) }], inv: InvPos::No };
             // in the pipeline shapes the consuming operator is not the first step of its body
             if shape == 0 {
                 vec![leaf]
             } else {
-                vec![Step { op: "addone".into(), args: vec![], inv: InvPos::No }, leaf]
+                vec![Step { omit: Omit::NONE, op: "addone".into(), args: vec![], inv: InvPos::No }, leaf]
             }
         } else {
-            let next = Step { op: format!("c:m{}", d + 1), args: vec![], inv: if inv && d % 2 == 1 { InvPos::Suffix } else { InvPos::No } };
-            let one = Step { op: "addone".into(), args: vec![], inv: InvPos::No };
+            let next = Step { omit: Omit::NONE, op: format!("c:m{}", d + 1), args: vec![], inv: if inv && d % 2 == 1 { InvPos::Suffix } else { InvPos::No } };
+            let one = Step { omit: Omit::NONE, op: "addone".into(), args: vec![], inv: InvPos::No };
             match shape {
                 0 => vec![next],
                 1 => vec![next, one],
@@ -1477,11 +1644,12 @@ fn chain_case(i: usize) -> Case {
         lib.push(Macro { name: format!("c:m{d}"), body });
     }
     let main = Step {
+        omit: Omit::NONE,
         op: "c:m0".into(),
         args: vec![Arg { key: "c".into(), val: Val::Lit("7".into()) }, Arg { key: "a".into(), val: Val::Lit("3".into()) }],
         inv: if inv { InvPos::Infix } else { InvPos::No },
     };
-    let top = if in_pipeline { vec![Step { op: "addone".into(), args: vec![], inv: InvPos::No }, main] } else { vec![main] };
+    let top = if in_pipeline { vec![Step { omit: Omit::NONE, op: "addone".into(), args: vec![], inv: InvPos::No }, main] } else { vec![main] };
     Case { ctx: ctx as u8, lib, top, twin: if inv { InvPos::No } else { InvPos::Suffix }, excluded_known: 0 }
 }
 
@@ -1541,13 +1709,13 @@ fn g_inv(k: u8) -> InvPos {
 fn g_step(r: &(u8, u16, u8, u8), n: usize) -> Step {
     let (kind, target, inv, arg) = *r;
     match kind {
-        0..=10 => Step { op: format!("g:n{}", pick(target, n)), args: g_args(arg), inv: g_inv(inv) },
-        11 => Step { op: "g:none".into(), args: g_args(arg), inv: g_inv(inv) },
-        12..=14 => Step { op: "addone".into(), args: vec![], inv: g_inv(inv) },
-        15..=16 => Step { op: "helmert".into(), args: vec![Arg { key: "x".into(), val: Val::RefDef("a".into(), "1".into()) }], inv: g_inv(inv) },
-        17 => Step { op: "helmert".into(), args: vec![Arg { key: "y".into(), val: Val::Def("2".into()) }], inv: g_inv(inv) },
-        18 => Step { op: "noop".into(), args: vec![], inv: InvPos::No },
-        _ => Step { op: "geo:in".into(), args: vec![], inv: g_inv(inv) },
+        0..=10 => Step { omit: Omit::NONE, op: format!("g:n{}", pick(target, n)), args: g_args(arg), inv: g_inv(inv) },
+        11 => Step { omit: Omit::NONE, op: "g:none".into(), args: g_args(arg), inv: g_inv(inv) },
+        12..=14 => Step { omit: Omit::NONE, op: "addone".into(), args: vec![], inv: g_inv(inv) },
+        15..=16 => Step { omit: Omit::NONE, op: "helmert".into(), args: vec![Arg { key: "x".into(), val: Val::RefDef("a".into(), "1".into()) }], inv: g_inv(inv) },
+        17 => Step { omit: Omit::NONE, op: "helmert".into(), args: vec![Arg { key: "y".into(), val: Val::Def("2".into()) }], inv: g_inv(inv) },
+        18 => Step { omit: Omit::NONE, op: "noop".into(), args: vec![], inv: InvPos::No },
+        _ => Step { omit: Omit::NONE, op: "geo:in".into(), args: vec![], inv: g_inv(inv) },
     }
 }
 
@@ -1586,14 +1754,14 @@ fn build_graph_with(raw: &RawG, limit: usize) -> GCase {
         let want = format!("g:n{}", (i + 1) % raw.cycle);
         if !lib[i].body.iter().any(|s| s.op == want) {
             let k = pick(raw.force[i], lib[i].body.len());
-            lib[i].body[k] = Step { op: want, args: g_args(raw.bodies[i][k].3), inv: g_inv(raw.bodies[i][k].2) };
+            lib[i].body[k] = Step { omit: Omit::NONE, op: want, args: g_args(raw.bodies[i][k].3), inv: g_inv(raw.bodies[i][k].2) };
         }
     }
-    let main = Step { op: "g:n0".into(), args: g_args(raw.top.2), inv: g_inv(raw.top.1) };
+    let main = Step { omit: Omit::NONE, op: "g:n0".into(), args: g_args(raw.top.2), inv: g_inv(raw.top.1) };
     let top = match raw.top.0 {
         0..=3 => vec![main],
-        4 => vec![Step { op: "addone".into(), args: vec![], inv: InvPos::No }, main],
-        _ => vec![main, Step { op: "g:n0".into(), args: vec![], inv: InvPos::Suffix }],
+        4 => vec![Step { omit: Omit::NONE, op: "addone".into(), args: vec![], inv: InvPos::No }, main],
+        _ => vec![main, Step { omit: Omit::NONE, op: "g:n0".into(), args: vec![], inv: InvPos::Suffix }],
     };
     // keep the amount of legitimate work bounded
     for keep in [2usize, 1] {
@@ -1857,7 +2025,7 @@ fn check_history(case: &HCase, rec: &mut Rec) -> CaseResult {
 /// invocations that fail in or just below the top frame: missing argument, bad value, unknown
 /// macro, unknown operator (alone or as a pipeline step), plus a valid one
 fn faulty_item(k: u16, repeat: u8, new_ctx: bool) -> HItem {
-    let st = |op: &str, args: Vec<Arg>| Step { op: op.into(), args, inv: InvPos::No };
+    let st = |op: &str, args: Vec<Arg>| Step { omit: Omit::NONE, op: op.into(), args, inv: InvPos::No };
     let lit = |k: &str, v: &str| Arg { key: k.into(), val: Val::Lit(v.into()) };
     let lib = vec![
         Macro { name: "m:shift".into(), body: vec![st("helmert", vec![Arg { key: "x".into(), val: Val::Ref("amount".into()) }])] },
@@ -1915,7 +2083,7 @@ fn history_case() -> impl Strategy<Value = HCase> {
 /// operator (which opens a cycle the macro was part of).
 fn redefine(old: &Macro, kind: u8, entry: &str) -> Macro {
     let mut body = old.body.clone();
-    let one = Step { op: "addone".into(), args: vec![], inv: InvPos::No };
+    let one = Step { omit: Omit::NONE, op: "addone".into(), args: vec![], inv: InvPos::No };
     match kind {
         0 => {
             // other constants
@@ -1970,11 +2138,11 @@ fn redefine(old: &Macro, kind: u8, entry: &str) -> Macro {
         3 => body.push(one),
         4 => {
             // closes a cycle when the macro is reachable from the earlier invocation
-            body = vec![one, Step { op: entry.to_string(), args: vec![], inv: InvPos::No }];
+            body = vec![one, Step { omit: Omit::NONE, op: entry.to_string(), args: vec![], inv: InvPos::No }];
         }
         _ => {
             // a plain operator: opens any cycle the macro was part of
-            body = vec![Step { op: "helmert".into(), args: vec![Arg { key: "z".into(), val: Val::Lit("5".into()) }], inv: InvPos::No }];
+            body = vec![Step { omit: Omit::NONE, op: "helmert".into(), args: vec![Arg { key: "z".into(), val: Val::Lit("5".into()) }], inv: InvPos::No }];
         }
     }
     Macro { name: old.name.clone(), body }
@@ -1987,10 +2155,10 @@ fn cycle_case(i: usize) -> GCase {
     let shape = (i / 8) % 4;
     let argk = [0u8, 6, 9][(i / 32) % 3];
     let ctx = (i / 96) % 3;
-    let one = Step { op: "addone".into(), args: vec![], inv: InvPos::No };
+    let one = Step { omit: Omit::NONE, op: "addone".into(), args: vec![], inv: InvPos::No };
     let lib: Vec<Macro> = (0..len)
         .map(|d| {
-            let next = Step { op: format!("g:n{}", (d + 1) % len), args: g_args(argk), inv: if d % 3 == 2 { InvPos::Suffix } else { InvPos::No } };
+            let next = Step { omit: Omit::NONE, op: format!("g:n{}", (d + 1) % len), args: g_args(argk), inv: if d % 3 == 2 { InvPos::Suffix } else { InvPos::No } };
             let body = match shape {
                 0 => vec![next],
                 1 => vec![next, one.clone()],
@@ -2000,7 +2168,303 @@ fn cycle_case(i: usize) -> GCase {
             Macro { name: format!("g:n{d}"), body }
         })
         .collect();
-    GCase { ctx: ctx as u8, forced_cycle: len, lib, top: vec![Step { op: "g:n0".into(), args: g_args(4), inv: InvPos::No }] }
+    GCase { ctx: ctx as u8, forced_cycle: len, lib, top: vec![Step { omit: Omit::NONE, op: "g:n0".into(), args: g_args(4), inv: InvPos::No }] }
+}
+
+// ---- parameter names over the whole lexical order ------------------------------------------
+
+/// Keys the library itself keeps in the maps the caller's arguments travel in (the tokenised
+/// step: `_name`, the modifiers; the globals: `ellps`): a parameter name may sort anywhere
+/// relative to each of them.
+const RESERVED: [&str; 5] = ["_name", "ellps", "inv", "omit_fwd", "omit_inv"];
+
+/// Parameter names spanning the lexical (byte) order: digits first, upper case, leading
+/// underscore on either side of `_name`, names just before / just after / between the reserved
+/// keys, prefixes and suffixes of them and of each other, one character, very long, non-ASCII
+/// letters. None of them is a key of any operator used here, none is a reserved key, none ends in
+/// a subscript digit (`x₀` is documented sugar for `x_0`). ty: 0 numeric, 1 ellipsoid, 2 flag.
+fn wide_names(ty: u8) -> &'static [String] {
+    static POOLS: std::sync::OnceLock<[Vec<String>; 3]> = std::sync::OnceLock::new();
+    let pools = POOLS.get_or_init(|| {
+        let num: Vec<&str> = vec![
+            // digits first
+            "0", "007", "1st", "2nd", "9z",
+            // upper case (also of operator keys: a different name)
+            "A", "B2", "EAST", "N", "Q", "X", "Y", "Z", "ZONE", "Xx", "Zz",
+            // leading underscore: before `_name`, its prefixes, its neighbours, its extensions, after it
+            "_", "__", "_0", "_A", "_a", "_m", "_n", "_nam", "_namd", "_name2", "_name_", "_namf", "_o", "_x", "_z",
+            // lower case: before / between / after ellps, inv, omit_fwd, omit_inv; prefixes and suffixes of them
+            "a", "e", "el", "ellp", "ellpr", "ellpsoid", "ellpt", "h", "i", "im", "inu", "inv2", "inw", "j", "o", "omit_fwc",
+            "omit_fwd2", "omit_fwe", "omit_i", "omit_inu", "omit_inv_", "omit_inw", "p", "zz", "zzzz", "nv", "lps", "mit_inv", "_inv", "_fwd", "ame",
+            // non-ASCII letters (sort after every ASCII key)
+            "ø", "Å", "λ", "φ1", "é", "ñame", "żółć", "東経", "_ø", "Ωmega",
+        ];
+        let mut num: Vec<String> = num.into_iter().map(String::from).collect();
+        // very long names, one a prefix of the other
+        num.push("parameter_with_a_rather_long_name_that_goes_on_and_on_and_on_0123456789".into());
+        num.push("n".repeat(200));
+        num.push("n".repeat(200) + "x");
+        num.push("_".repeat(3) + &"N".repeat(300));
+        num.sort();
+        num.dedup();
+        let ell: Vec<String> = ["0e", "E", "Ellps", "ELLPS_IN", "_e", "_named", "ellq", "ellipsoid", "elm", "invell", "omit_e", "zell", "øll"].iter().map(|s| s.to_string()).collect();
+        let flag: Vec<String> = ["0f", "F", "South", "_f", "_name_f", "fl", "invflag", "k", "omit_f", "zf", "ßflag"].iter().map(|s| s.to_string()).collect();
+        [num, ell, flag]
+    });
+    &pools[ty as usize]
+}
+
+/// Every key any leaf operator looks up: such a name is never handed out as a replacement
+fn is_operator_key(n: &str) -> bool {
+    LEAVES.iter().any(|l| l.gamut.contains(&n)) || RESERVED.contains(&n)
+}
+
+/// Where a name sorts relative to the reserved keys (evidence)
+fn name_class(n: &str) -> String {
+    let pos = RESERVED.iter().filter(|r| **r < n).count();
+    let first = n.chars().next().unwrap_or(' ');
+    let kind = if !n.is_ascii() {
+        "non-ascii"
+    } else if first.is_ascii_digit() {
+        "digit-first"
+    } else if first.is_ascii_uppercase() {
+        "upper-case"
+    } else if first == '_' {
+        "underscore"
+    } else {
+        "lower-case"
+    };
+    let rel = match pos {
+        0 => "before-_name".to_string(),
+        5 => "after-omit_inv".to_string(),
+        k => format!("after-{}", RESERVED[k - 1]),
+    };
+    format!("name:{kind}:{rel}{}", if n.len() > 60 { ":long" } else if n.chars().count() == 1 { ":one-char" } else { "" })
+}
+
+/// Exhaustive over the wide names: P the inner macro's parameter, Q the outer one's (Q = P, its
+/// lexical successor, its predecessor, a far one); `helmert x=$P | x=$P(32)` (and `y=$Q(33)`, which
+/// sees Q without its being handed on) as a single-operator or a pipeline body of i:m; invoked
+/// directly or from o:m as `i:m` / `i:m P=21` / `i:m P=$Q` / `i:m P=$Q(22)` / `i:m P=(22)`; every
+/// subset of {P, Q} given by the outermost caller (absent + `$P` => error), in either textual
+/// order, with and without a lower-case companion; inverted twin in every position.
+const PN_PER_NAME: usize = 4 * 2 * 6 * 4 * 2;
+fn names_n() -> usize {
+    wide_names(0).len() * PN_PER_NAME
+}
+fn names_case(i: usize) -> Case {
+    let pool = wide_names(0);
+    let n = pool.len();
+    let j = i % n;
+    let r = i / n;
+    let (partner, lf, fo, subset, shape) = (r % 4, (r / 4) % 2, (r / 8) % 6, (r / 48) % 4, (r / 192) % 2);
+    let p = pool[j].as_str();
+    let q = match partner {
+        0 => p,
+        1 => pool[(j + 1) % n].as_str(),
+        2 => pool[(j + n - 1) % n].as_str(),
+        _ => pool[(j + n / 2) % n].as_str(),
+    };
+    let a = |k: &str, v: Val| Arg { key: k.into(), val: v };
+    let lit = |v: &str| Val::Lit(v.into());
+    let st = |op: &str, args: Vec<Arg>| Step { omit: Omit::NONE, op: op.into(), args, inv: InvPos::No };
+    let x = a("x", if lf == 0 { Val::Ref(p.into()) } else { Val::RefDef(p.into(), "32".into()) });
+    let y = a("y", Val::RefDef(q.into(), "33".into()));
+    let body = if shape == 0 { vec![st("helmert", vec![x, y])] } else { vec![st("addone", vec![]), st("helmert", vec![x]), st("helmert", vec![y])] };
+    let inner = Macro { name: "i:m".into(), body };
+    let mut top_args = vec![];
+    if subset & 1 != 0 {
+        top_args.push(a(p, lit("11")));
+    }
+    if subset & 2 != 0 && q != p {
+        top_args.push(a(q, lit("12")));
+    }
+    if (j + r) % 2 == 1 {
+        top_args.reverse();
+    }
+    if (j + r / 2) % 2 == 0 {
+        top_args.insert(top_args.len() / 2, a("c", lit("7")));
+    }
+    let twin = [InvPos::Suffix, InvPos::Infix, InvPos::Prefix][(r / 3) % 3];
+    let ctx = (i % 3) as u8;
+    if fo == 0 {
+        return Case { ctx, lib: vec![inner], top: vec![Step { omit: Omit::NONE, op: "i:m".into(), args: top_args, inv: InvPos::No }], twin, excluded_known: 0 };
+    }
+    let call_args = match fo {
+        1 => vec![],
+        2 => vec![a(p, lit("21"))],
+        3 => vec![a(p, Val::Ref(q.into()))],
+        4 => vec![a(p, Val::RefDef(q.into(), "22".into()))],
+        _ => vec![a(p, Val::Def("22".into()))],
+    };
+    let outer = Macro { name: "o:m".into(), body: vec![st("i:m", call_args)] };
+    Case { ctx, lib: vec![outer, inner], top: vec![Step { omit: Omit::NONE, op: "o:m".into(), args: top_args, inv: InvPos::No }], twin, excluded_known: 0 }
+}
+
+/// Replace parameter names of a generated case by wide names, consistently (an injective map):
+/// keys of invocation arguments, every `$name`, and step keys no operator looks up. Keys an
+/// operator looks up stay. Three in four names are replaced.
+fn rename_case(case: &mut Case, picks: &[u16]) {
+    let mut names: BTreeSet<String> = BTreeSet::new();
+    for s in case.top.iter().chain(case.lib.iter().flat_map(|m| m.body.iter())) {
+        let gamut: &[&str] = leaf_spec(&s.op).map(|l| l.gamut).unwrap_or(&[]);
+        for a in &s.args {
+            if s.is_macro() || !gamut.contains(&a.key.as_str()) {
+                names.insert(a.key.clone());
+            }
+            if let Val::Ref(n) | Val::RefDef(n, _) = &a.val {
+                names.insert(n.clone());
+            }
+        }
+    }
+    for r in RESERVED.iter().filter(|r| **r != "ellps") {
+        names.remove(*r);
+    }
+    let mut used: BTreeSet<String> = names.clone();
+    let mut map: BTreeMap<String, String> = BTreeMap::new();
+    for (k, name) in names.iter().enumerate() {
+        let pk = picks[k % picks.len()];
+        if pk % 4 == 0 {
+            continue;
+        }
+        let ty = if is_ell_name(name) {
+            1
+        } else if is_flag_name(name) {
+            2
+        } else {
+            0
+        };
+        let pool = wide_names(ty);
+        let start = pick(pk, pool.len());
+        if let Some(new) = (0..pool.len()).map(|d| &pool[(start + d) % pool.len()]).find(|c| !used.contains(*c) && !is_operator_key(c)) {
+            used.insert(new.clone());
+            map.insert(name.clone(), new.clone());
+        }
+    }
+    for s in case.top.iter_mut().chain(case.lib.iter_mut().flat_map(|m| m.body.iter_mut())) {
+        let gamut: &[&str] = leaf_spec(&s.op).map(|l| l.gamut).unwrap_or(&[]);
+        let is_macro = s.is_macro();
+        for a in s.args.iter_mut() {
+            if is_macro || !gamut.contains(&a.key.as_str()) {
+                if let Some(n) = map.get(&a.key) {
+                    a.key = n.clone();
+                }
+            }
+            if let Val::Ref(n) | Val::RefDef(n, _) = &mut a.val {
+                if let Some(new) = map.get(n) {
+                    *n = new.clone();
+                }
+            }
+        }
+        tidy_args(&mut s.args);
+    }
+}
+
+fn mode_of(k: u8) -> Mode {
+    match k % 3 {
+        0 => Mode::Safe,
+        1 => Mode::Forwarding,
+        _ => Mode::InvPos,
+    }
+}
+
+fn renamed_case() -> impl Strategy<Value = Case> {
+    (raw_case(6), prop::collection::vec(any::<u16>(), 24), 0u8..3).prop_map(|(r, picks, mode)| {
+        let mut c = build_case(&r, mode_of(mode));
+        rename_case(&mut c, &picks);
+        c
+    })
+}
+
+// ---- one-way steps -------------------------------------------------------------------------
+
+fn omit_of(kind: usize, form: u8) -> Omit {
+    Omit { fwd: kind & 1 != 0, inv: kind & 2 != 0, form }
+}
+
+/// Exhaustive: body `ow:m` = s0 | s1 | s2 with s0 = addone, s1 = helmert x=$a(10) [inv], s2 = an
+/// elementary step / a nested single-operator macro / a nested pipeline macro with a one-way step
+/// of its own [inv]; each of the three steps {plain, omit_fwd, omit_inv, both} (64 patterns);
+/// invoked plain, inverted (inv prefix / infix / suffix), through a wrapper macro that inverts it
+/// (single-step and pipeline wrapper), doubly (wrapper inverted; wrapper of a wrapper) and triply
+/// inverted; alone (then also the inverted twin, inv in every position) or as a step of a pipeline;
+/// the spelling of the modifiers (`<` / `>`, word before / after the name / after the arguments,
+/// `=true`) cycles.
+const OW_N: usize = 64 * 3 * 2 * 2 * 10 * 2;
+fn one_way_case(i: usize) -> Case {
+    let (pat, k2, inv1, inv2, call, piped) = (i % 64, (i / 64) % 3, (i / 192) % 2, (i / 384) % 2, (i / 768) % 10, (i / 7680) % 2);
+    let form = |d: usize| ((pat + k2 + call + piped + d) % 5) as u8;
+    let a = |k: &str, v: Val| Arg { key: k.into(), val: v };
+    let st = |op: &str, args: Vec<Arg>, inv: InvPos, omit: Omit| Step { omit, op: op.into(), args, inv };
+    let ip = |on: usize, pos: usize| if on == 0 { InvPos::No } else { [InvPos::Suffix, InvPos::Prefix, InvPos::Infix][pos % 3] };
+    let s0 = st("addone", vec![], InvPos::No, omit_of(pat % 4, form(0)));
+    let s1 = st("helmert", vec![a("x", Val::RefDef("a".into(), "10".into()))], ip(inv1, pat), omit_of((pat / 4) % 4, form(1)));
+    let s2 = match k2 {
+        0 => st("helmert", vec![a("z", Val::Lit("5".into()))], ip(inv2, call), omit_of(pat / 16, form(2))),
+        _ => st("n:m", vec![a("b", Val::Lit("4".into()))], ip(inv2, call), omit_of(pat / 16, form(2))),
+    };
+    let mut lib = vec![Macro { name: "ow:m".into(), body: vec![s0, s1, s2] }];
+    if k2 == 1 {
+        lib.push(Macro { name: "n:m".into(), body: vec![st("helmert", vec![a("y", Val::RefDef("b".into(), "20".into()))], InvPos::No, Omit::NONE)] });
+    } else if k2 == 2 {
+        lib.push(Macro {
+            name: "n:m".into(),
+            body: vec![
+                st("helmert", vec![a("y", Val::RefDef("b".into(), "20".into()))], InvPos::No, Omit::NONE),
+                st("addone", vec![], InvPos::No, omit_of(1 + (pat + call) % 2, form(3))),
+            ],
+        });
+    }
+    let none = Omit::NONE;
+    let noop = st("noop", vec![], InvPos::No, none);
+    lib.push(Macro { name: "w:m".into(), body: vec![st("ow:m", vec![], InvPos::Suffix, none)] });
+    lib.push(Macro { name: "ww:m".into(), body: vec![st("w:m", vec![], InvPos::Prefix, none)] });
+    lib.push(Macro { name: "pw:m".into(), body: vec![noop.clone(), st("ow:m", vec![], InvPos::Infix, none), noop.clone()] });
+    let (name, inv) = match call {
+        0 => ("ow:m", InvPos::No),
+        1 => ("ow:m", InvPos::Prefix),
+        2 => ("ow:m", InvPos::Infix),
+        3 => ("ow:m", InvPos::Suffix),
+        4 => ("w:m", InvPos::No),
+        5 => ("w:m", InvPos::Infix),
+        6 => ("ww:m", InvPos::No),
+        7 => ("ww:m", InvPos::Suffix),
+        8 => ("pw:m", InvPos::No),
+        _ => ("pw:m", InvPos::Prefix),
+    };
+    let args = if (pat + call) % 2 == 0 { vec![a("a", Val::Lit("3".into()))] } else { vec![] };
+    let main = st(name, args, inv, none);
+    let top = if piped == 1 { vec![noop, main, st("addone", vec![], InvPos::No, none)] } else { vec![main] };
+    Case { ctx: (i % 3) as u8, lib, top, twin: [InvPos::Suffix, InvPos::Infix, InvPos::Prefix][(i / 3) % 3], excluded_known: 0 }
+}
+
+/// A generated library with one-way steps sprinkled over every pipeline (bodies and invocation
+/// text): 40% of the eligible steps, elementary or macro invocations alike
+fn one_way_random() -> impl Strategy<Value = Case> {
+    (raw_case(6), prop::collection::vec((0u8..20, 0u8..5), 32), 0u8..3, 0u8..3).prop_map(|(r, marks, mode, twin)| {
+        let mut c = build_case(&r, mode_of(if mode == 1 { 2 } else { mode }));
+        let mut k = 0usize;
+        for steps in std::iter::once(&mut c.top).chain(c.lib.iter_mut().map(|m| &mut m.body)) {
+            if steps.len() < 2 {
+                continue;
+            }
+            for s in steps.iter_mut() {
+                let (m, form) = marks[k % marks.len()];
+                k += 1;
+                s.omit = match m {
+                    0..=3 => Omit { fwd: true, inv: false, form },
+                    4..=6 => Omit { fwd: false, inv: true, form },
+                    7 => Omit { fwd: true, inv: true, form },
+                    _ => Omit::NONE,
+                };
+            }
+        }
+        // an invocation on its own: always with its inverted twin
+        if c.top.len() == 1 && c.top[0].inv == InvPos::No && c.twin == InvPos::No {
+            c.twin = [InvPos::Suffix, InvPos::Infix, InvPos::Prefix][twin as usize];
+        }
+        c
+    })
 }
 
 fn main() {
@@ -2013,7 +2477,8 @@ fn main() {
     run.assume("an unresolvable `$n` is required to be an error only when an operator actually looks the key up; unresolvable values that are ignored, or that meet a default form, are generated but not judged (excluded_unspecified)");
     run.assume("equivalence is asserted only while the nesting level stays <= 50 (half the recursion breaker); deeper chains: Ok or Err, no panic, no abort, no hang");
     run.assume("sections other than 'histories' compare two instantiations made on the same (reused) worker thread, so state the library keeps per thread affects both sides alike there; dependence on earlier instantiations is examined by 'histories', where every history and every reference runs on a freshly spawned thread");
-    run.assume("modifiers other than inv (omit_fwd, omit_inv) and stack operators are not used in macro bodies or invocations (C03, C12); `inv=true` spelling is not generated");
+    run.assume("stack operators are not used in macro bodies or invocations (C03, C12); `inv=true` spelling is not generated; the directional modifiers omit_fwd / omit_inv (and their sugar `<` / `>`) are used in sections 'one-way-bodies' and 'one-way-steps' only, and only on steps of a pipeline (a body or invocation text of >= 2 steps): there they are a property of the step relative to the direction its pipeline is run in (Rumination 000/009), so a body run backwards by an inverted invocation omits in the literal's forward direction what it omits in its own inverse direction; a directional modifier on a definition that is a lone operator is not judged (excluded_unspecified); that a flat pipeline honours omit_fwd / omit_inv is taken from the library (C03)");
+    run.assume("parameter names are case-sensitive strings of letters (ASCII or not), digits and '_' in any order, other than the keys the library reserves (_name, inv, omit_fwd, omit_inv) and names ending in a subscript digit (documented sugar for _<digit>)");
 
     run.enumerate(
         "binding-forms",
@@ -2038,6 +2503,40 @@ fn main() {
         "as 'equivalence' (depth 0..6) but invocation arguments at every level use all binding forms with names independent of lexical order (forwarding under the same, an earlier or a later name; defaults at the second hop; re-bound names)",
         n,
         || raw_case(6).prop_map(|r| build_case(&r, Mode::Forwarding)),
+        check,
+    );
+
+    run.enumerate(
+        "param-names",
+        "exhaustive over a pool of parameter names spanning the lexical order relative to every key the library keeps in the same maps (_name, ellps, inv, omit_fwd, omit_inv): digit first, upper case, leading underscore before/after `_name` and its prefixes/extensions, lower case before/between/after the reserved keys and prefixes/suffixes of them, one character, 70..300 characters (one a prefix of another), non-ASCII letters: P the inner macro's parameter, Q the outer one's (Q = P, P's lexical successor, predecessor, a far name) x helmert x=$P or x=$P(d) (and y=$Q(d), seen without being handed on) in a single-operator or pipeline body x invoked directly or through o:m as `i:m` / `i:m P=lit` / `i:m P=$Q` / `i:m P=$Q(d)` / `i:m P=(d)` x every subset of {P,Q} given by the outermost caller (absent => error or default) in either textual order, with or without a lower-case companion x 3 contexts, plus the inverted twin (inv in every position); values and count bit-identical to the literal expansion, both directions",
+        names_n(),
+        names_case,
+        check,
+    );
+
+    let n = run.scale(8_000, 160_000);
+    run.section(
+        "wide-names",
+        "as 'equivalence' / 'arg-forwarding' / 'inv-position' (one third each, depth 0..6), then three in four of the parameter names (keys of invocation arguments, every $name, step keys no operator looks up; numeric, ellipsoid and flag typed) replaced consistently by names of the wide pool of 'param-names', at every nesting level and in every binding form",
+        n,
+        renamed_case,
+        check,
+    );
+
+    run.enumerate(
+        "one-way-bodies",
+        "exhaustive: body addone | helmert x=$a(10) [inv] | <helmert z=5, or a nested single-operator macro, or a nested pipeline macro with a one-way step of its own> [inv], each of the three steps plain / omit_fwd / omit_inv / both (64 patterns), spelled as `<` `>` separators, as a word before the name / after the name / after the arguments, or `=true`; invoked plain, inverted once (inv prefix / infix / suffix; through a single-step or a pipeline wrapper macro), twice (inverted wrapper, wrapper of a wrapper) or three times; alone (plus the inverted twin, inv in every position) or as a step of a pipeline; compared with the literal expansion (for a body run backwards: steps reversed, each inverted, omit_fwd and omit_inv exchanged) in BOTH directions, values bit for bit and count; non-trivial = a one-way step inside a body run backwards by an odd number of inverted invocations",
+        OW_N,
+        one_way_case,
+        check,
+    );
+
+    let n = run.scale(8_000, 160_000);
+    run.section(
+        "one-way-steps",
+        "as 'equivalence' / 'inv-position' (depth 0..6; inv in every position on invocations at every level) with 40% of the steps of every pipeline (macro bodies and the invocation text; elementary steps and macro invocations alike) made one-way: omit_fwd 20%, omit_inv 15%, both 5%, in all five spellings; an invocation on its own always with its inverted twin; non-trivial as in 'one-way-bodies'",
+        n,
+        one_way_random,
         check,
     );
 
@@ -2089,5 +2588,5 @@ fn main() {
         check_graph,
     );
 
-    run.finish("macro libraries (generated and enumerated) instantiated through Minimal, Plain and a user context, compared with the macro-free literal produced by a reference expander (bit-identical behaviour in both directions, same success/failure), plus cyclic / deep / broken resource graphs under a panic guard, a 16 MB stack and a 30 s watchdog");
+    run.finish("macro libraries (generated and enumerated) instantiated through Minimal, Plain and a user context, compared with the macro-free literal produced by a reference expander (bit-identical behaviour in both directions, same success/failure; parameter names spanning the lexical order around the keys the library reserves; one-way steps in bodies run forwards and backwards by 0..3 inverted invocations), plus cyclic / deep / broken resource graphs under a panic guard, a 16 MB stack and a 30 s watchdog");
 }
